@@ -43,6 +43,8 @@ def main():
         'C10_literal_no_copy': 'equivalent for C10: a shallow copy still gives every evaluation of a dictionary literal a fresh dictionary; the '
                                'shared values are immutable (no nested dictionary literal exists)',
         'C16_recover_ge': 'equivalent for C16: evicts one entry more than needed; values, accounting, limit and LRU invariants all still hold',
+        'C16a': 'neutralised by fix 6bd3c72 (see seeded/C16a/meta.json): its damage went through the ghost LRU entry of the not-cacheable '
+                'branch, which that fix removes; the seed\'s own demo passes with the patch on the fixed tree; caught in every wave before',
         'C01c': 'neutralised by a later fix (see seeded/C01c/meta.json); caught at import time (59 new)',
     }
     rows = []
